@@ -1,6 +1,7 @@
 CONSTANTS
   PathDot = "fixed"
   AnyQuote = "fixed"
+  DefaultVia = "to_url"
   KeyDefaults = "flag"
   Alpha = {97, 32, 37, 63, 35, 59, 43, 233, 8364, 10, 50}
   MaxText = 1
